@@ -289,6 +289,16 @@ static void start_self_deleting(S&& s, int k)
     ex::start(h->op);
 }
 
+// Reference count of the shared state once the set-up (construction of the adaptor, copies for the consumers,
+// destruction of the handle) is through: first line of the log, `0 life.init <obj> <count> 0`.  The hooks
+// sh.ref / sh.unref / sh.free log every later change, so the driver's ownership model starts from this count.
+template <class State>
+static void note_init(controller* ctl, State* st)
+{
+    ctl->name_obj(st);
+    ctl->logf(0, "life.init", ctl->obj(st), static_cast<long>(st->reference_count), 0);
+}
+
 // ---------------------------------------------------------------- CASES
 static int channel_of(std::string const& name)    // complete_<ch>
 {
@@ -368,7 +378,9 @@ static void run_one(case_t const& c)
                     if ((op.name == "consume" || op.name == "discard") && !op.args.empty() &&
                         (*mine)[std::size_t(op.args[0]) & 3] == nullptr)
                         (*mine)[std::size_t(op.args[0]) & 3] = new S(*s);
+            auto* st0 = s->state.get();
             delete s;    // the handle the user got is gone before anything starts
+            note_init(ctl, st0);
             consume = [mine](int kk) {
                 S* x = (*mine)[std::size_t(kk) & 3];
                 (*mine)[std::size_t(kk) & 3] = nullptr;
@@ -386,6 +398,7 @@ static void run_one(case_t const& c)
         {
             auto* s = new auto(ex::ensure_started(manual_sender<int>{t0}, guard_alloc<int>{}));
             ctl->name_obj(s->state.get());
+            note_init(ctl, s->state.get());
             consume = [s](int kk) {
                 start_self_deleting(std::move(*s), kk);
                 delete s;
@@ -399,6 +412,7 @@ static void run_one(case_t const& c)
             auto* e0 = new auto(std::get<0>(std::move(*tup)));
             auto* e1 = new auto(std::get<1>(std::move(*tup)));
             delete tup;
+            note_init(ctl, e0->state.get());
             consume = [e0, e1](int kk) {
                 if (kk == 0)
                 {
@@ -421,6 +435,7 @@ static void run_one(case_t const& c)
         {
             auto* s = new auto(ex::split(manual_sender<int>{t0}));
             ctl->name_obj(s->state.get());
+            note_init(ctl, s->state.get());
             consume = [s](int kk) {
                 auto copy = *s;
                 auto* op = new auto(ex::connect(std::move(copy), term_recv{kk}));
@@ -432,6 +447,7 @@ static void run_one(case_t const& c)
             // starts the leaf right here: the trigger is armed during setup
             auto* s = new auto(ex::ensure_started(manual_sender<int>{t0}));
             ctl->name_obj(s->state.get());
+            note_init(ctl, s->state.get());
             consume = [s](int kk) {
                 auto* op = new auto(ex::connect(std::move(*s), term_recv{kk}));
                 ex::start(*op);
@@ -441,6 +457,7 @@ static void run_one(case_t const& c)
         {
             auto* tup = new auto(ex::split_tuple(manual_sender<std::tuple<int, int>>{t0}));
             ctl->name_obj(std::get<0>(*tup).state.get());
+            note_init(ctl, std::get<0>(*tup).state.get());
             consume = [tup](int kk) {
                 if (kk == 0)
                 {
